@@ -31,6 +31,8 @@ EXPLANATION = (
     "the two running solvers are compared on random template parameter sets.")
 
 RTOL = ATOL = 1e-6
+DEFAULTS = (1e-6, 1e-10)   # HydrodynamicsTemplateModel's constructor defaults (manager.py)
+VMIN_FLOOR = 1e-3         # documented floor of Hydrodynamics.vMin (vBracketLow)
 # tolerances (relative), delta = rtol + atol/scale is the accuracy requested from the root
 # finders; factors calibrated on the unchanged tree with margin (see report)
 K_VJ = 0.02           # |vJ_general - vJ_template| <= K_VJ * (rtol + atol/Tn) * vJ
@@ -40,6 +42,9 @@ K_MATCH = 8.0         # matching, boundaries: K_MATCH * delta * gamma+^2 gamma-^
 #                       only known to rtol*Tn while its signal is the heating (Tp - Tn)
 K_VMIN = 60.0         # |vMin difference| <= K_VMIN * (atol + (rtol + atol/Tn)*vMin)
 K_LTE = 60.0          # |vwLTE difference| <= K_LTE * (atol + (rtol + atol/Tn)*vw)
+TOL_CAP = 0.2         # upper limit of the (conditioning dependent) matching tolerance
+TOL_TIGHT_MATCH = 1e-6   # matchings of the two classes at rtol=atol=1e-10 (clean worst 3e-8)
+NEARJ_MAX = 2e-3      # magnitude bound of the recorded near-Jouguet class (1.4e-4..4e-4)
 TOL_KAPPA = 0.15      # efficiency factor at the default rtol=atol=1e-6: both classes apply
 #                       Simpson's rule on solve_ivp's own adaptive steps, which limits the
 #                       accuracy of kappa to several % (measured: general 5.3%, template 2.2% off
@@ -69,6 +74,13 @@ DIRECTED = [
     # template findvwLTE returns a sign change of its discontinuous residual
     dict(case=dict(kind="template", alN=0.22323, psiN=0.656, cb2=0.2023, cs2=0.3229,
                    Tn=0.1205), vws=[0.5], lte=True),
+    # shock-limited minimal velocities (alN > 1/3): non-trivial vMin in every quick run
+    dict(case=dict(kind="template", alN=0.42, psiN=0.6, cb2=0.25, cs2=0.3, Tn=1.0, wn=3.7),
+         vws=[0.3, 0.5]),
+    dict(case=dict(kind="template", alN=0.5, psiN=0.9, cb2=0.31, cs2=0.27, Tn=50.0),
+         vws=[0.4]),
+    dict(case=dict(kind="template", alN=0.36, psiN=0.55, cb2=1 / 3, cs2=1 / 3, Tn=0.02,
+                   wn=1e-3), vws=[0.6]),
     # cb2 > cs2 corners of the round-2 seeded changes (must agree on the unchanged tree)
     dict(case=dict(kind="template", alN=0.15, psiN=0.93, cb2=0.31, cs2=0.24, Tn=1.0),
          vws=[0.5, 0.7], lte=True),
@@ -100,14 +112,23 @@ def gen_params(rng, ordering=None):
     # alN > (1-psiN)/3 (same convention as tests/test_HydroTemplateModel.py)
     alN = round((1 - psiN) / 3 + 10.0 ** rng.uniform(-3, -0.45), 5)
     Tn = 10.0 ** rng.randint(-2, 2) * round(rng.uniform(0.5, 2.0), 3)
-    return dict(kind="template", alN=alN, psiN=psiN, cb2=cb2, cs2=cs2, Tn=Tn)
+    if rng.random() < 0.15:
+        Tn = float(int(rng.choice([1, 2, 50])))        # the tests use the integer Tn = 1
+    wn = rng.choice([1, float("%.3g" % (10.0 ** rng.uniform(-3, 3)))])
+    tmax, tmin = rng.choice([(10.0, 0.01), (10.0, 0.01), (6.0, 0.03)])
+    return dict(kind="template", alN=alN, psiN=psiN, cb2=cb2, cs2=cs2, Tn=Tn, wn=wn,
+                tmax=tmax, tmin=tmin)
 
 
 def build(case, rtol=RTOL, atol=ATOL):
     import WallGo
     th = base.build_model(case)
-    hg = WallGo.Hydrodynamics(th, base.TMAX, base.TMIN, rtol, atol)
-    ht = WallGo.HydrodynamicsTemplateModel(th, rtol, atol)
+    hg = WallGo.Hydrodynamics(th, case.get("tmax", base.TMAX), case.get("tmin", base.TMIN),
+                              rtol, atol)
+    if (rtol, atol) == DEFAULTS:
+        ht = WallGo.HydrodynamicsTemplateModel(th)     # the constructor's own defaults
+    else:
+        ht = WallGo.HydrodynamicsTemplateModel(th, rtol, atol)
     return th, hg, ht
 
 
@@ -119,7 +140,8 @@ def velocities(rng, hg, ht, n):
     lo = max(hg.vMin, ht.vMin, 1e-3)
     vJ1, vJ2 = min(hg.vJ, ht.vJ), max(hg.vJ, ht.vJ)
     cb = ht.cb
-    pts = [lo * 1.001 + 1e-5, lo + (min(cb, vJ1) - lo) * rng.uniform(0.005, 0.1),
+    first_pt = lo * 1.001 + 1e-5 if lo > 1.5 * VMIN_FLOOR else 1.6 * VMIN_FLOOR
+    pts = [first_pt, lo + (min(cb, vJ1) - lo) * rng.uniform(0.005, 0.1),
            cb * (1 - 10 ** rng.uniform(-4, -2)), cb * (1 + 10 ** rng.uniform(-4, -2)),
            vJ1 - 10 ** rng.uniform(-4, -2), vJ1 - rng.uniform(0.003, 0.03),
            vJ2 + 10 ** rng.uniform(-4, -2), 0.99,
@@ -141,13 +163,68 @@ def general_state(hg, spy, vw):
     return base.solve_state(base.solve_info(hg, spy, vw))
 
 
+def matching_tolerance(ht, Tn, rt, at, mg, mt, branch):
+    """K_MATCH * delta * g+^2 g-^2, capped at TOL_CAP, with
+    delta = rt + at/min(vp,Tp,Tm) + rt/heating + S*(rt + at/vp)  (conditioning, see header)"""
+    vp, vm, Tp, Tm = mt
+    delta = rt + at / min(vp, Tp, Tm)
+    if branch != "detonation":
+        # conditioning of the shooting in v+: signal = heating Tp/Tn - 1, known to rt.
+        # Where the heating is below 1% and the two classes' Tp differ by less than 1%
+        # but by as much as the heating itself, the heating is not resolved at this rt
+        hT, hG = abs(Tp / Tn - 1), abs(mg[2] / Tn - 1)
+        href = min(hT, hG)
+        dh = abs(mg[2] - Tp) / Tn
+        if href < 1e-2 and dh < 1e-2:
+            href = max(href - dh, 1e-12)
+        delta += rt / max(href, 1e-12)
+        # conditioning of T+ in v+: T+ = Tn w+^(1/mu), w+ = wFromAlpha(alpha+(v+, v-));
+        # |dln w+/dln v+| is large when (1-3 alpha+) mu - nu is close to 0
+        try:
+            def lnw(v):
+                al = (v / vm - 1) * (v * vm / ht.cb2 - 1) / (1 - v * v) / 3
+                return math.log(float(ht.wFromAlpha(al)))
+            S = abs(lnw(vp * (1 + 1e-6)) - lnw(vp * (1 - 1e-6))) / 2e-6 / ht.mu
+            if math.isfinite(S):
+                delta += S * (rt + at / vp)
+        except (ValueError, ZeroDivisionError):
+            pass
+    # never vacuous: beyond TOL_CAP the classes disagree whatever the conditioning
+    return min(K_MATCH * delta / ((1 - vp * vp) * (1 - vm * vm)), TOL_CAP)
+
+
+def small_alpha_evidence(th, ht, vw):
+    """in the class alN <= (mu-nu)/(3mu) a failure is attributed to the recorded TEMPLATE
+    finding only with evidence on the template side at this velocity: its matching is not
+    finite / not conserving, or building it raises"""
+    try:
+        mt = [float(x) for x in ht.findMatching(vw)]
+    except Exception:
+        return True
+    if not all(math.isfinite(x) for x in mt) or min(mt) <= 0:
+        return True
+    e = base.fluxes(th, *mt)
+    return not (rel(e[0], e[1]) < 1e-7 and rel(e[2], e[3]) < 1e-7)
+
+
+def template_side_ok(th, ht, vw, mt):
+    """the template's matching passes an independent check: both fluxes conserved with the
+    model's own equation of state and its own shooting residual vanishes at its v+"""
+    try:
+        e = base.fluxes(th, *mt)
+        return rel(e[0], e[1]) < 1e-7 and rel(e[2], e[3]) < 1e-7 and abs(
+            float(ht._shooting(vw, mt[0]))) < 1e-4
+    except Exception:
+        return False
+
+
 GEN_KEY = {"unconverged": "general-unconverged-matching",
            "accepted": "general-unconverged-accepted",
            "foreign": "general-unconverged-foreign-cause"}
 
 
 def compare(ctx, case, stats, rng, n_vw, with_lte=True, with_kappa=True, vws=None,
-            kappa_vws=None):
+            kappa_vws=None, directed=False):
     """the property on the two running solvers for one parameter set"""
     try:
         th, hg, ht = build(case)
@@ -169,23 +246,47 @@ def compare(ctx, case, stats, rng, n_vw, with_lte=True, with_kappa=True, vws=Non
         ctx.fail_input("%s [alN=%g psiN=%g cb2=%g cs2=%g Tn=%g]" % (
             what, case["alN"], case["psiN"], case["cb2"], case["cs2"], Tn), d, key=key)
 
-    # Jouguet velocity
+    # Jouguet velocity: the METHOD is called (the attribute hg.vJ is silently replaced by the
+    # template's value when the method raises)
     dT = RTOL + ATOL / Tn
-    r = rel(hg.vJ, ht.vJ)
-    stats.append(("vJ", r / (K_VJ * dT), dict(case=case)))
-    ctx.count("vJ")
-    if r > K_VJ * dT:
-        fail("Jouguet velocity: general %.12g, template %.12g (rel %.3g > %.3g)" % (
-            hg.vJ, ht.vJ, r, K_VJ * dT), "vJ", quantity="vJ")
-    # minimal velocity (the general class floors it at vBracketLow)
-    vmin_t = max(hg.vBracketLow, ht.vMin)
-    d = abs(hg.vMin - vmin_t)
-    tolv = K_VMIN * (ATOL + (RTOL + ATOL / Tn) * vmin_t)    # atol is absolute in T as well
-    stats.append(("vMin", d / tolv, dict(case=case)))
-    ctx.count("vMin", bucket="floor" if vmin_t == hg.vBracketLow else "shock-limited")
-    if d > tolv:
-        fail("minimal velocity: general %.12g, template %.12g" % (hg.vMin, ht.vMin), "vMin",
-             quantity="vMin")
+    try:
+        vJg = float(hg.findJouguetVelocity())
+        vJt = float(ht.findJouguetVelocity())
+    except Exception as ex:
+        fail("findJouguetVelocity raised %r" % ex, "vJ-raises", quantity="vJ")
+        vJg = vJt = None
+    if vJg is not None:
+        r = rel(vJg, vJt)
+        if not directed:
+            stats.append(("vJ", r / (K_VJ * dT), dict(case=case)))
+        ctx.count("vJ")
+        if not r <= K_VJ * dT:
+            fail("Jouguet velocity: general %.12g, template %.12g (rel %.3g > %.3g)" % (
+                vJg, vJt, r, K_VJ * dT), "vJ", quantity="vJ")
+        if hg.vJ != vJg or ht.vJ != vJt:
+            fail("attribute vJ (%r, %r) is not what findJouguetVelocity() returns (%r, %r)"
+                 % (hg.vJ, ht.vJ, vJg, vJt), "vJ-attribute", quantity="vJ")
+    # minimal velocity: methods called; the general class floors it at the documented 1e-3
+    try:
+        vmg, vmt = float(hg.minVelocity()), float(ht.minVelocity())
+    except Exception as ex:
+        fail("minVelocity raised %r" % ex, "vMin-raises", quantity="vMin")
+        vmg = vmt = None
+    if vmg is not None:
+        if hg.vMin != max(VMIN_FLOOR, vmg) or ht.vMin != vmt:
+            fail("attribute vMin (%r, %r) is not max(1e-3, minVelocity()) = %r resp. "
+                 "minVelocity() = %r" % (hg.vMin, ht.vMin, max(VMIN_FLOOR, vmg), vmt),
+                 "vMin-attribute", quantity="vMin")
+        d = abs(max(VMIN_FLOOR, vmg) - max(VMIN_FLOOR, vmt))
+        tolv = K_VMIN * (ATOL + (RTOL + ATOL / Tn) * max(VMIN_FLOOR, vmt))
+        if not directed:
+            stats.append(("vMin", d / tolv, dict(case=case)))
+        ctx.count("vMin", bucket="floor" if vmt <= VMIN_FLOOR else "shock-limited")
+        if not d <= tolv:
+            fail("minimal velocity: general %.12g, template %.12g" % (vmg, vmt), "vMin",
+                 quantity="vMin")
+    first = None          # first compared matching of each class (repeat-call equality, F6)
+    compared = []
     # matchings and boundary constants
     for vw in (vws if vws is not None else velocities(rng, hg, ht, n_vw)):
         branch = "detonation" if vw > hg.vJ else ("hybrid" if vw > ht.cb else "deflagration")
@@ -225,47 +326,44 @@ def compare(ctx, case, stats, rng, n_vw, with_lte=True, with_kappa=True, vws=Non
                 vw, branch, mg), "general-nan", vw=vw, quantity="matching")
             continue
         vp, vm, Tp, Tm = mt
-        if min(mt) <= 10 * ATOL or min(mg) <= 10 * ATOL:
+        if min(mt) <= 10 * ATOL and min(mg) <= 10 * ATOL:
             # edge of existence (vw -> shock-limited vMin): v+ -> 0 and T- ~ v+^(1/nu) is
-            # infinitely sensitive; a returned v+ below the absolute tolerance says nothing
+            # infinitely sensitive; BOTH classes return a v+ below the absolute tolerance
             ctx.count("degenerate_edge_skipped")
             continue
-        delta = RTOL + ATOL / min(vp, Tp, Tm)
-        if branch != "detonation":
-            # conditioning of the shooting in v+: signal = heating Tp/Tn - 1, known to rtol.
-            # Where the heating is below 1% and the two classes' Tp differ by less than 1%
-            # but by as much as the heating itself, the heating is not resolved at this rtol
-            hT, hG = abs(Tp / Tn - 1), abs(mg[2] / Tn - 1)
-            href = min(hT, hG)
-            dh = abs(mg[2] - Tp) / Tn
-            if href < 1e-2 and dh < 1e-2:
-                href = max(href - dh, 1e-12)
-            delta += RTOL / max(href, 1e-12)
-            # conditioning of T+ in v+: T+ = Tn w+^(1/mu), w+ = wFromAlpha(alpha+(v+, v-));
-            # |dln w+/dln v+| is large when (1-3 alpha+) mu - nu is close to 0
-            try:
-                def lnw(v):
-                    al = (v / vm - 1) * (v * vm / ht.cb2 - 1) / (1 - v * v) / 3
-                    return math.log(float(ht.wFromAlpha(al)))
-                S = abs(lnw(vp * (1 + 1e-6)) - lnw(vp * (1 - 1e-6))) / 2e-6 / ht.mu
-                if math.isfinite(S):
-                    delta += S * (RTOL + ATOL / vp)
-            except (ValueError, ZeroDivisionError):
-                pass
-        tol = K_MATCH * delta / ((1 - vp * vp) * (1 - vm * vm))
+        if min(mt) <= 0 or min(mg) <= 0:
+            fail("non-positive component in a returned matching at vw=%.6g (%s): general %r, "
+                 "template %r" % (vw, branch, mg, mt), "matching-not-positive", vw=vw,
+                 quantity="matching")
+            continue
+        # the general solver alone (also when the template side is a recorded finding)
+        if gstate == "ok" and not spy.fallback and not (
+                hg.vMin == hg.vBracketLow and vw < 1.5 * hg.vBracketLow):
+            ge = base.fluxes(th, *mg)
+            gtol = base.flux_tolerance(hg, *mg)
+            if not (rel(ge[0], ge[1]) <= gtol and rel(ge[2], ge[3]) <= gtol):
+                fail("general solver alone: fluxes %r not conserved (tol %.3g) at vw=%.6g" % (
+                    ge, gtol, vw), "general-flux", vw=vw, quantity="matching")
+        tol = matching_tolerance(ht, Tn, RTOL, ATOL, mg, mt, branch)
         worst = max(rel(a, b) for a, b in zip(mg, mt))
+        if first is None and not (hg.vMin == hg.vBracketLow and vw < 1.5 * hg.vBracketLow):
+            first = (vw, tuple(mg), tuple(mt))
+        if gstate == "ok" and not (hg.vMin == hg.vBracketLow and vw < 1.5 * hg.vBracketLow):
+            compared.append((vw, branch))
         # walls within 50% of the hard-coded bracket floor 1e-3: the general solver's
         # recorded C02 findings (slow-wall-*) live there; not re-reported under C15
         corner = hg.vMin == hg.vBracketLow and vw < 1.5 * hg.vBracketLow
         if corner:
             ctx.count("slow_wall_corner_skipped")
             continue
-        stats.append(("matching", worst / tol, dict(case=case, vw=vw, branch=branch)))
+        if not directed:
+            stats.append(("matching", worst / tol, dict(case=case, vw=vw, branch=branch)))
         if not worst <= tol:
             names = ["vp", "vm", "Tp", "Tm"]
             k = max(range(4), key=lambda i: rel(mg[i], mt[i]))
             # hybrids within 2% of the Jouguet velocity are reported as their own class
-            nearJ = branch == "hybrid" and vw > 0.98 * min(hg.vJ, ht.vJ)
+            nearJ = branch == "hybrid" and vw > 0.98 * min(hg.vJ, ht.vJ) and \
+                worst <= NEARJ_MAX and template_side_ok(th, ht, vw, mt)
             fail("matching at vw=%.6g (%s, vJ=%.6g): %s general %.12g, template %.12g (rel "
                  "%.3g > %.3g)%s" % (vw, branch, ht.vJ, names[k], mg[k], mt[k], worst, tol,
                                      "" if gstate == "ok" else " [general 2x2 solve: %s]"
@@ -279,12 +377,56 @@ def compare(ctx, case, stats, rng, n_vw, with_lte=True, with_kappa=True, vws=Non
         worstb = max(rel(a, b) for a, b in zip(bgf, btf))
         # c1, c2 ~ w(Tp) ~ Tp^mu: a relative error in Tp is amplified by mu (<= 6)
         tolb = (1 + ht.mu) * tol
-        stats.append(("boundaries", worstb / tolb, dict(case=case, vw=vw, branch=branch)))
+        if not directed:
+            stats.append(("boundaries", worstb / tolb, dict(case=case, vw=vw,
+                                                            branch=branch)))
         ctx.count("boundaries")
         if not worstb <= tolb:
             fail("findHydroBoundaries at vw=%.6g (%s): general %r, template %r" % (
                 vw, branch, bgf, btf), GEN_KEY.get(gstate, "boundaries"), vw=vw, quantity="boundaries",
                  general_state=gstate)
+    # ---- the same matchings at tight tolerances (flat 1e-6: tolerance-independent errors
+    #      cannot hide behind the conditioning model) and at the constructor defaults ------
+    if compared and not directed:
+        sel = sorted(compared)[:1] + rng.sample(compared, min(3, len(compared)))
+        for rt, at, tag in ((TIGHT, TIGHT, "tight"), DEFAULTS + ("defaults",)):
+            try:
+                th2, hg2, ht2 = build(case, rt, at)
+            except Exception as ex:
+                fail("constructing the solvers with rtol=%g atol=%g raised %r" % (rt, at, ex),
+                     "raises", quantity="matching", rtol=rt, atol=at)
+                continue
+            for vw, branch in sel:
+                try:
+                    with base.Spy(hg2) as sp2:
+                        m2g = hg2.findMatching(vw)
+                    st2 = "ok" if vw > hg2.vJ else general_state(hg2, sp2, vw)
+                    m2t = ht2.findMatching(vw)
+                except Exception as ex:
+                    fail("findMatching (rtol=%g atol=%g) raised %r at vw=%.6g" % (
+                        rt, at, ex, vw), "raises", vw=vw, quantity="matching", rtol=rt,
+                        atol=at)
+                    continue
+                if m2g[0] is None or m2t[0] is None:
+                    continue
+                m2g, m2t = [float(x) for x in m2g], [float(x) for x in m2t]
+                if not all(math.isfinite(x) and x > 0 for x in m2g + m2t):
+                    continue              # judged in the main pass
+                ctx.count("matching_" + tag, bucket=branch)
+                w2 = max(rel(a, b) for a, b in zip(m2g, m2t))
+                tol2 = TOL_TIGHT_MATCH if tag == "tight" else matching_tolerance(
+                    ht2, Tn, rt, at, m2g, m2t, branch)
+                stats.append(("matching_" + tag, w2 / tol2, dict(case=case, vw=vw)))
+                if not w2 <= tol2:
+                    nearJ = branch == "hybrid" and vw > 0.98 * min(hg2.vJ, ht2.vJ) and \
+                        w2 <= NEARJ_MAX and template_side_ok(th2, ht2, vw, m2t)
+                    fail("matching at vw=%.6g (%s) with rtol=%g atol=%g: general %r, "
+                         "template %r (rel %.3g > %.3g)%s" % (
+                             vw, branch, rt, at, m2g, m2t, w2, tol2,
+                             "" if st2 == "ok" else " [general 2x2 solve: %s]" % st2),
+                         GEN_KEY.get(st2, "matching-near-jouguet-hybrid" if nearJ else
+                                     "matching-" + tag),
+                         vw=vw, quantity="matching", rtol=rt, atol=at, general_state=st2)
     # LTE wall velocity
     if with_lte:
         try:
@@ -294,7 +436,8 @@ def compare(ctx, case, stats, rng, n_vw, with_lte=True, with_kappa=True, vws=Non
                 "1" if lt == 1 else "in"))
             # the temperature roots inside use the ABSOLUTE atol: accuracy atol/Tn
             toll = K_LTE * (ATOL + (RTOL + ATOL / Tn) * max(lg, lt))
-            stats.append(("vwLTE", abs(lg - lt) / toll, dict(case=case)))
+            if not directed:
+                stats.append(("vwLTE", abs(lg - lt) / toll, dict(case=case)))
             if abs(lg - lt) > toll:
                 key = "vwLTE"
                 note = ""
@@ -368,7 +511,7 @@ def compare(ctx, case, stats, rng, n_vw, with_lte=True, with_kappa=True, vws=Non
             except Exception as ex:
                 ctx.count("raised", bucket="kappa:" + type(ex).__name__)
                 key = "raises"
-                if small_alpha:
+                if small_alpha and small_alpha_evidence(th, ht, vw):
                     key = SMALL
                 if case["cb2"] == case["cs2"] and isinstance(ex, TypeError):
                     key = "template-no-matching-equal-sound-speeds"
@@ -389,13 +532,14 @@ def compare(ctx, case, stats, rng, n_vw, with_lte=True, with_kappa=True, vws=Non
                 pass
             tolk = TOL_KAPPA + K_KAPPA_T * ATOL / Tn + sens * (RTOL * min(kvp, kTp, kTm)
                                                               + ATOL if sens else 0.0)
-            stats.append(("kappa", rel(kg, kt) / tolk, dict(case=case, vw=vw)))
+            if not directed:
+                stats.append(("kappa", rel(kg, kt) / tolk, dict(case=case, vw=vw)))
             if not rel(kg, kt) <= tolk:
                 # kappa computed from a matching whose 2x2 solve did not converge is a
                 # consequence of the recorded general-unconverged-matching class
                 fail("efficiency factor at vw=%.6g: general %.9g%s, template %.9g" % (
                     vw, kg, "" if gsucc else " (from an UNCONVERGED matching)", kt),
-                    SMALL if small_alpha else {
+                    SMALL if small_alpha and small_alpha_evidence(th, ht, vw) else {
                         "ok": "kappa", "unconverged": "kappa-general-unconverged-matching",
                         "accepted": "general-unconverged-accepted",
                         "foreign": "general-unconverged-foreign-cause"}[kstate],
@@ -413,24 +557,46 @@ def compare(ctx, case, stats, rng, n_vw, with_lte=True, with_kappa=True, vws=Non
             except Exception as ex:
                 ctx.count("raised", bucket="kappa-tight:" + type(ex).__name__)
                 fail("efficiencyFactor (rtol=atol=1e-10) raised %r at vw=%.6g" % (ex, vw),
-                     SMALL if small_alpha else "raises", vw=vw, quantity="kappa",
-                     rtol=TIGHT, atol=TIGHT)
+                     SMALL if small_alpha and small_alpha_evidence(th, ht, vw) else
+                     "raises", vw=vw, quantity="kappa", rtol=TIGHT, atol=TIGHT)
                 continue
             ctx.count("kappa_tight")
             tolkt = TOL_KAPPA_TIGHT + sens * (TIGHT * min(kvp, kTp, kTm) + TIGHT
                                               if sens else 0.0)
-            stats.append(("kappa_tight", rel(kg, kt) / tolkt, dict(case=case, vw=vw)))
+            if not directed:
+                stats.append(("kappa_tight", rel(kg, kt) / tolkt, dict(case=case, vw=vw)))
             if not rel(kg, kt) <= tolkt:
                 fail("efficiency factor at vw=%.6g with rtol=atol=1e-10: general %.9g%s, "
                      "template %.9g (rel %.3g > %.3g)" % (
                          vw, kg, "" if gsucc else " (from an UNCONVERGED matching)", kt,
                          rel(kg, kt), tolkt),
-                     SMALL if small_alpha else {
+                     SMALL if small_alpha and small_alpha_evidence(th, ht, vw) else {
                          "ok": "kappa-tight",
                          "unconverged": "kappa-general-unconverged-matching",
                          "accepted": "general-unconverged-accepted",
                          "foreign": "general-unconverged-foreign-cause"}[kstate],
                      vw=vw, quantity="kappa", rtol=TIGHT, atol=TIGHT, general_state=kstate)
+
+    # ---- repeat-call equality: findMatching is a function of vw only; after findvwLTE and
+    #      efficiencyFactor (which change rtol/atol and self.success on the way) the first
+    #      compared velocity must give the very same answer on the same objects ------------
+    if first is not None:
+        vw0, g0, t0 = first
+        for name, obj, ref in (("general", hg, g0), ("template", ht, t0)):
+            try:
+                again = tuple(float(x) for x in obj.findMatching(vw0))
+            except Exception as ex:
+                again = ("raised", type(ex).__name__)
+            ctx.count("repeat_call", bucket=name)
+            same = len(again) == len(ref) and all(
+                isinstance(a, float) and (a == b or abs(a - b) <= 1e-12 * abs(b))
+                for a, b in zip(again, ref))
+            if not same:
+                fail("%s solver: findMatching(%.12g) returned %r at first and %r after "
+                     "findvwLTE / efficiencyFactor on the same object (rtol=%r atol=%r now)"
+                     % (name, vw0, ref, again, getattr(obj, "rtol", None),
+                        getattr(obj, "atol", None)),
+                     "history-dependence", vw=vw0, quantity="matching")
 
 
 # ------------------------------------------------------------------------------------
@@ -616,7 +782,8 @@ def run(ctx):
                 _, _, ht0 = build(case)
                 vws = [ht0.vJ - float(v[3:]) if isinstance(v, str) else v for v in vws]
             compare(ctx, dict(case), stats, rng, 6, with_lte=d.get("lte", False),
-                    with_kappa="kappa_vws" in d, vws=vws, kappa_vws=d.get("kappa_vws"))
+                    with_kappa="kappa_vws" in d, vws=vws, kappa_vws=d.get("kappa_vws"),
+                    directed=True)
         except Exception:
             ctx.log("harness exception", json.dumps(case), traceback.format_exc())
             ctx.broken.append("harness: compare raised")
@@ -637,6 +804,25 @@ def run(ctx):
         ctx.log("worst %s difference / tolerance: %.3g at %s" % (kind, ratio,
                                                                 json.dumps(info)))
     ctx.cov["worst_difference_over_tolerance"] = {k: v[0] for k, v in worst.items()}
+    # ---- coverage floors and caps on the skips (fail closed) ------------------------------
+    cc, dd = ctx.cov["correspondence"], ctx.cov["distribution"]
+    nm = cc.get("matching", 0)
+    ndefl = sum(v for b, v in dd.get("matching", {}).items() if b != "detonation")
+    for k, floor in (("matching", ctx.n(150, 3000)), ("boundaries", ctx.n(100, 2000)),
+                     ("matching_tight", ctx.n(40, 800)), ("matching_defaults", ctx.n(40, 800)),
+                     ("kappa_tight", ctx.n(40, 800)), ("repeat_call", ctx.n(30, 600)),
+                     ("vwLTE", ctx.n(15, 300))):
+        if cc.get(k, 0) < floor:
+            ctx.broken.append("coverage: only %d %s (floor %d)" % (cc.get(k, 0), k, floor))
+    if dd.get("vMin", {}).get("shock-limited", 0) < 3:
+        ctx.broken.append("coverage: fewer than 3 shock-limited minimal velocities")
+    for k, frac, of in (("general_used_template_fallback", 0.5, ndefl),
+                        ("degenerate_edge_skipped", 0.1, nm),
+                        ("slow_wall_corner_skipped", 0.15, nm),
+                        ("raised", 0.1, nm)):
+        if cc.get(k, 0) > frac * max(of, 1):
+            ctx.broken.append("coverage: %d %s out of %d comparisons (cap %d%%)" % (
+                cc.get(k, 0), k, of, int(100 * frac)))
     for m, case, rows, p, pr in procs:
         out, err = pr.communicate()
         for _ in rows:
